@@ -82,6 +82,36 @@ func (c *fconn) SetWriteDeadline(time.Time) error { return nil }
 
 var sizes = []int{1, 2, 7, 100, 1023, 1024, 1025, 4095, 4096, 4097, 8191, 8192, 8193, 20000, 600000}
 
+// source is an io.Reader over b that delivers the ways the interface allows.  (Not
+// testing/iotest: its DataErrReader spins forever when handed an empty buffer, which
+// Conn.ReadFrom does once a non-recyclable tail node is full.)
+type source struct {
+	b    []byte
+	kind string
+}
+
+func (s *source) Read(p []byte) (int, error) {
+	if len(s.b) == 0 {
+		return 0, io.EOF
+	}
+	if len(p) == 0 {
+		return 0, nil
+	}
+	n := len(p)
+	switch s.kind {
+	case "half", "data+eof-short":
+		n = (len(p) + 1) / 2
+	case "onebyte":
+		n = 1
+	}
+	n = copy(p[:n], s.b)
+	s.b = s.b[n:]
+	if len(s.b) == 0 && (s.kind == "data+eof" || s.kind == "data+eof-short") {
+		return n, io.EOF
+	}
+	return n, nil
+}
+
 func posByte(i int) byte { return byte(i*7 + i>>8 + i>>16) }
 
 func readerCase(w *mon.W, c *mon.Case) {
@@ -338,8 +368,20 @@ func writerCase(w *mon.W, c *mon.Case) {
 			}
 			b := make([]byte, sz)
 			fill(b)
-			n, err := cn.(io.ReaderFrom).ReadFrom(bytes.NewReader(b))
-			opsLog = append(opsLog, fmt.Sprintf("ReadFrom(%d)", sz))
+			// the source delivers its bytes the ways io.Reader allows: EOF on a call of its
+			// own, the last bytes together with io.EOF, short reads, one byte at a time
+			kind := r.Str("plain", "data+eof", "half", "onebyte", "data+eof-short")
+			if kind == "onebyte" && sz > 3000 {
+				kind = "plain"
+			}
+			src := &source{b: b, kind: kind}
+			n, err := cn.(io.ReaderFrom).ReadFrom(src)
+			opsLog = append(opsLog, fmt.Sprintf("ReadFrom(%d,%s)", sz, kind))
+			w.Count("readfrom_source_"+kind, 1)
+			if err == nil && n != int64(sz) {
+				c.Violate("readfrom-count", "ReadFrom of a %d-byte source (%s) returned n=%d and no error", sz, kind, n)
+				return
+			}
 			if err != nil {
 				w.Count("readfrom_errors_sequence_ended", 1)
 				_ = n
